@@ -3,6 +3,7 @@ from mirq.anchors import POOL_EXEC, POOL_JOIN, THREAD_SPAWN
 from mirq.prov import subterms, term_str, strip_wrap, strip_clone
 from mirq.report import short, AnchorMissing
 from rules.pipe import _pipe, _loop_of
+from mirq.program import Site
 
 CALL_ONCE = {"std::ops::FnOnce::call_once", "std::ops::FnMut::call_mut", "std::ops::Fn::call"}
 TAKERS = {"std::vec::Vec::remove", "std::vec::Vec::pop", "std::vec::Vec::swap_remove"}
@@ -125,9 +126,19 @@ def e2_drain(ctx, rep):
                 good = True  # pop()/next() returned None
         rep.check(good, R, "drain-until-empty:" + fn, ctx.where(body, a), "the effect loop ends only when the vector is empty", "the effect loop can end before the vector is empty")
     # the effect phase is entered for every action (independent of the notify flag)
-    hk = [nk for nk, nn in G.nodes.items() if nn.body.path == body.path and nn.bb == h]
+    # marker of "the effect phase looked at the vector": the loop header or any emptiness / length
+    # test on that vector in the same function (an early return on an empty vector is fine)
+    hk = {nk for nk, nn in G.nodes.items() if nn.body.path == body.path and nn.bb == h}
+    for nk, nn in G.nodes.items():
+        if nn.body.path != body.path:
+            continue
+        tt = nn.body.blocks[nn.bb]["term"]
+        if tt["k"] == "call":
+            ss = Site(nn.body, nn.bb, tt)
+            if ss.ck in ("std::vec::Vec::is_empty", "std::vec::Vec::len") and ss.term["args"] and strip_wrap(bp.arg_term(nn.bb, 0)) == strip_wrap(vt):
+                hk.add(nk)
     if hk and P.recv:
-        rep.check(G.every_path_hits(P.recv, P.recv, set(hk)), R, "effect-phase-on-every-pass", ctx.where(body, h), "every received action reaches the effect hand-over loop", "the effect hand-over loop is skipped on some pass (e.g. when the reducers answered Keep): returned effects are never run")
+        rep.check(G.every_path_hits(P.recv, P.recv, hk), R, "effect-phase-on-every-pass", ctx.where(body, h), "every received action reaches the effect phase (hand-over loop or its emptiness test)", "the effect phase is skipped on some pass (e.g. when the reducers answered Keep): returned effects are never run")
     # per iteration: exhaustive match, one hand-over per variant
     eff = _effect_adt(ctx)
     variants = [v["name"] for v in eff["variants"]]
@@ -360,3 +371,77 @@ def e7_vector_untouched_between_hooks_and_drain(ctx, rep):
             continue
         rep.check(m in ALLOWED, R, "effects-vector-op:%s:%s" % (m, short(nd.body.path)), s.where, "%s on the effects vector" % m, "the store calls %s on the effects vector outside the hand-over loop: effects a middleware left in place are dropped/changed" % m)
     rep.floor(R, "operations on the effects vector", n, 4)
+
+
+POOL_CTORS = {"rusty_pool::Builder::build", "rusty_pool::ThreadPool::new", "rusty_pool::ThreadPool::new_named", "rusty_pool::ThreadPool::default"}
+
+
+def _const_usize(t):
+    t = strip_wrap(t)
+    if t[0] == "const" and isinstance(t[1], str):
+        d = ""
+        for ch in t[1]:
+            if ch.isdigit():
+                d += ch
+            else:
+                break
+        if d:
+            return int(d)
+    return None
+
+
+def e8_pool_not_capped(ctx, rep):
+    """the reducer permanently occupies one worker of the store's pool; the store must not itself
+    cap the pool below reducer + 2 workers, else one slow effect serialises every later effect
+    (and the action of every later Effect::Action).  Sizing left to rusty_pool's machine default
+    is accepted; a size that is not a compile-time constant is reported as not decided."""
+    R = "E8"
+    n = 0
+    for s in ctx.prog.sites():
+        if s.ck not in POOL_CTORS:
+            continue
+        n += 1
+        rep.note_fn(s.body.path)
+        bp = ctx.prog.bp(s.body)
+        key = short(s.body.path)
+        core = mx = None
+        undecided = []
+        if s.ck == "rusty_pool::Builder::build":
+            cur = s
+            guard = 0
+            while cur is not None and guard < 12:
+                guard += 1
+                t = strip_wrap(bp.arg_term(cur.bb, 0)) if cur.term["args"] else None
+                if t is None or t[0] != "call":
+                    break
+                bb = t[1][1]
+                nxt = Site(s.body, bb, s.body.blocks[bb]["term"])
+                if nxt.ck in ("rusty_pool::Builder::core_size", "rusty_pool::Builder::max_size"):
+                    v = _const_usize(bp.arg_term(bb, 1))
+                    if v is None:
+                        undecided.append(nxt.ck.split("::")[-1])
+                    elif nxt.ck.endswith("core_size") and core is None:
+                        core = v
+                    elif nxt.ck.endswith("max_size") and mx is None:
+                        mx = v
+                cur = nxt
+        elif s.ck in ("rusty_pool::ThreadPool::new", "rusty_pool::ThreadPool::new_named"):
+            off = 1 if s.ck.endswith("new_named") else 0
+            core = _const_usize(bp.arg_term(s.bb, off))
+            mx = _const_usize(bp.arg_term(s.bb, off + 1))
+            if core is None or mx is None:
+                undecided.append("new")
+        if mx is not None:
+            eff = mx
+        elif core is not None:
+            eff = max(core, core * 2)
+        else:
+            eff = None
+        if eff is None:
+            rep.ok(R, "pool-not-capped-below-reducer-plus-two:" + key, s.where,
+                   "pool size %s" % ("left to the machine default" if not undecided else "not a constant (%s): not decided" % ",".join(undecided)))
+        else:
+            rep.check(eff >= 3, R, "pool-not-capped-below-reducer-plus-two:" + key, s.where,
+                      "pool capped at %d threads (reducer + %d effect workers)" % (eff, eff - 1),
+                      "pool capped at %d thread(s): the reducer holds one for the store's lifetime, so at most %d effect worker(s) remain and one slow effect delays every later effect and Effect::Action" % (eff, max(eff - 1, 0)))
+    rep.floor(R, "pool construction sites", n, 1)
